@@ -578,3 +578,116 @@ Proof.
         assert (j < n) by (apply Pn; apply (proj2 (proj2 (q_ids s O))); exact Y). rewrite E5, Kk by lia.
         split; [|auto]. rewrite Po; [exact X|]. apply NT. right. left. congruence.
 Qed.
+
+(* ---- the lock owner takes the head of the list ---- *)
+Lemma pop_common s s' x l' : oinv s -> lst s = x :: l' -> lst s' = l' -> popped s' = i_id x :: popped s ->
+  nextid s' = nextid s -> pushed s' = pushed s ->
+  (forall i, acquired s' i <-> acquired s i \/ i = i_id x) /\
+  (0 <= nextid s' /\ (forall i, In i (pushed s') -> 0 <= i < nextid s') /\ (forall i, In i (popped s') -> In i (pushed s'))) /\
+  rev (pushed s') = rev (popped s') ++ map i_id (lst s') /\ StronglySorted Z.lt (rev (pushed s')).
+Proof.
+  intros O El E1 E5 En E4. destruct (head_pushed s x l' O El) as [Hp Hn]. pose proof (pushed_lt s _ O Hp) as Hl.
+  split; [|split; [|split]].
+  - intros i. unfold acquired. rewrite En, E4, E5. split.
+    + intros [L [[<-|H]|H]]; auto.
+    + intros [[L [H|H]]| ->]; [split; [exact L|left; right; exact H]|split; [exact L|right; exact H]|].
+      split; [exact Hl|left; left; reflexivity].
+  - rewrite En, E4, E5. destruct (q_ids s O) as (A & B & C). split; [exact A|]. split; [exact B|]. intros i [<-|H]; auto.
+  - rewrite E4, E5, E1. cbn [rev]. rewrite <- app_assoc. cbn. rewrite (q_seq s O), El. reflexivity.
+  - rewrite E4. exact (q_sorted s O).
+Qed.
+
+Lemma pop_barrier W s s' t p' x l' : Inv W s -> Inv2 s -> lst s = x :: l' -> i_bar x = true -> lockh s = Some t ->
+  bmode s = true -> runs (pcs s t) = None -> hand (pcs s t) = None -> grant s t <> GOwner ->
+  lst s' = l' -> popped s' = i_id x :: popped s -> rq s' = rq s -> grant s' = grant s -> lockh s' = lockh s ->
+  nextid s' = nextid s -> kinds s' = kinds s -> pushed s' = pushed s -> started s' = started s -> finished s' = finished s ->
+  pcs s' = upd (pcs s) t p' -> wait_item p' = wait_item (pcs s t) ->
+  ((exists op, p' = W_call op (i_id x)) \/ (exists k e, p' = DBW_xfer k e (i_wt x) (i_id x) /\ i_wt x <> 0)) -> Inv2 s'.
+Proof.
+  intros HI H2 El Bx Lt Bm R0 H0 Gt E1 E5 Er Eg Elk En E3 E4 Es Ef Ep Ew Hp. pose proof H2 as [O OT]. upd_facts Ep t.
+  destruct (pop_common s s' x l' O El E1 E5 En E4) as (Ac & Qi & Qs & Qo).
+  assert (Kx : kinds s (i_id x) = true /\ (i_wt x <> 0 -> wait_item (pcs s (i_wt x)) = Some (i_id x, true))).
+  { rewrite <- Bx. apply (q_kind s O). rewrite El. left. reflexivity. }
+  assert (Pw : forall u, wait_item (pcs s' u) = wait_item (pcs s u)).
+  { intros u. rewrite Ep. unfold upd. destruct (Z.eqb_spec u t) as [->|]; auto. }
+  assert (BD := barriers_done s t O (or_intror (conj Lt (conj R0 (conj H0 Gt))))).
+  assert (RD := bmode_no_readers W s HI H2 Bm).
+  assert (Hh : runs p' = Some (i_id x) \/ hand p' = Some (i_id x)).
+  { destruct Hp as [(op & ->)|(k & e & -> & _)]; [left|right]; reflexivity. }
+  split.
+  - constructor; unfold inflight_reader; try assumption; rewrite ?Er, ?E3, ?Es, ?Ef.
+    + intros j Hj. destruct (q_rq s O j Hj) as [A K]. rewrite Ac. auto.
+    + intros y Hy. rewrite E1 in Hy. assert (Hy' : In y (lst s)) by (rewrite El; right; exact Hy).
+      destruct (q_kind s O y Hy') as [K1 K2]. split; [exact K1|]. intros N. rewrite Pw. auto.
+    + intros j Hj. rewrite Ac. left. exact (q_hist s O j Hj).
+    + exact (q_fin s O).
+    + intros j Aj Kj. rewrite Ac in Aj. destruct Aj as [Aj| ->]; [|destruct Kx; congruence]. left. exact (RD j Aj Kj).
+    + intros b0 Ab Kb. rewrite Ac in Ab. destruct Ab as [Ab| ->]; [left; exact (BD b0 Ab Kb)|]. right. exists t.
+      rewrite Elk. split; [exact Lt|]. unfold holds_barrier. rewrite Pt. tauto.
+    + rewrite E4, E5. intros i j Hi [<-|Hj] Lij K; [|exact (q_order s O i j Hi Hj Lij K)].
+      pose proof (popped_acquired s i O (pop_prefix s x l' i O El Hi Lij)) as Ai.
+      destruct (kinds s i) eqn:Ki; [exact (BD i Ai Ki)|exact (RD i Ai Ki)].
+  - intros u. destruct (OT u) as [R1 R2 R3]. constructor.
+    + intros j Hj. rewrite Ac, E3, Es. destruct (Z.eq_dec u t) as [->|Ne].
+      * rewrite Pt in *. destruct Hp as [(op & ->)|(k & e & -> & _)]; [|discriminate]. cbn in Hj. injection Hj as <-.
+        cbn. split; [auto|]. split; [exact (proj1 Kx)|discriminate].
+      * rewrite Po in * by exact Ne. destruct (R1 j Hj) as (A & K & S). auto.
+    + intros j b0 Hj. rewrite Pw in Hj. rewrite Eg, E3, E4, E5. destruct (R2 j b0 Hj) as (X1 & X2 & X3 & X4).
+      split; [exact X1|]. split; [exact X2|]. split; intros Y; [destruct (X3 Y)|destruct (X4 Y)]; split; auto; right; assumption.
+    + intros k e v j Hq. rewrite Pw, E3, E5. destruct (Z.eq_dec u t) as [->|Ne].
+      * rewrite Pt in Hq. destruct Hp as [(op & ->)|(k0 & e0 & -> & N)]; [discriminate|]. injection Hq as -> -> <- <-.
+        split; [exact (proj2 Kx N)|]. split; [left; reflexivity|exact (proj1 Kx)].
+      * rewrite Po in Hq by exact Ne. destruct (R3 k e v j Hq) as (X & Y & Z). split; [exact X|]. split; [right; exact Y|exact Z].
+Qed.
+
+Lemma pop_reader s s' t p' x l' : Inv2 s -> lst s = x :: l' -> i_bar x = false -> lockh s = Some t ->
+  runs (pcs s t) = None -> hand (pcs s t) = None -> grant s t <> GOwner -> (i_wt x <> 0 -> grant s (i_wt x) = GNone) ->
+  lst s' = l' -> popped s' = i_id x :: popped s -> lockh s' = lockh s ->
+  nextid s' = nextid s -> kinds s' = kinds s -> pushed s' = pushed s -> started s' = started s -> finished s' = finished s ->
+  ((i_wt x = 0 /\ rq s' = i_id x :: rq s /\ grant s' = grant s) \/
+   (i_wt x <> 0 /\ rq s' = rq s /\ grant s' = upd (grant s) (i_wt x) GReader)) ->
+  pcs s' = upd (pcs s) t p' -> runs p' = None -> hand p' = None -> wait_item p' = wait_item (pcs s t) -> Inv2 s'.
+Proof.
+  intros H2 El Bx Lt R0 H0 Gt Gx E1 E5 Elk En E3 E4 Es Ef Hc Ep R1 H1 Ew. pose proof H2 as [O OT]. upd_facts Ep t.
+  destruct (pop_common s s' x l' O El E1 E5 En E4) as (Ac & Qi & Qs & Qo).
+  assert (Kx : kinds s (i_id x) = false /\ (i_wt x <> 0 -> wait_item (pcs s (i_wt x)) = Some (i_id x, false))).
+  { rewrite <- Bx. apply (q_kind s O). rewrite El. left. reflexivity. }
+  assert (Pw : forall u, wait_item (pcs s' u) = wait_item (pcs s u)).
+  { intros u. rewrite Ep. unfold upd. destruct (Z.eqb_spec u t) as [->|]; auto. }
+  assert (Pr : forall u, runs (pcs s' u) = runs (pcs s u)).
+  { intros u. rewrite Ep. unfold upd. destruct (Z.eqb_spec u t) as [->|]; congruence. }
+  assert (BD := barriers_done s t O (or_intror (conj Lt (conj R0 (conj H0 Gt))))).
+  assert (Rq : forall j, In j (rq s) -> In j (rq s')).
+  { intros j Hj. destruct Hc as [(_ & -> & _)|(_ & -> & _)]; [right|]; exact Hj. }
+  assert (Gm : forall v, grant s v = GReader -> grant s' v = GReader).
+  { intros v X. destruct Hc as [(_ & _ & ->)|(_ & _ & ->)]; [exact X|]. unfold upd. destruct (v =? i_wt x); auto. }
+  assert (Gs : forall v, grant s' v = grant s v \/ (v = i_wt x /\ i_wt x <> 0 /\ grant s' v = GReader)).
+  { intros v. destruct Hc as [(_ & _ & ->)|(N & _ & ->)]; [auto|]. unfold upd. destruct (Z.eqb_spec v (i_wt x)); auto. }
+  split.
+  - constructor; unfold inflight_reader; try assumption; rewrite ?E3, ?Es, ?Ef.
+    + intros j Hj. rewrite Ac. destruct Hc as [(_ & Er & _)|(_ & Er & _)]; rewrite Er in Hj.
+      * destruct Hj as [<-|Hj]; [split; [auto|exact (proj1 Kx)]|]. destruct (q_rq s O j Hj); auto.
+      * destruct (q_rq s O j Hj); auto.
+    + intros y Hy. rewrite E1 in Hy. assert (Hy' : In y (lst s)) by (rewrite El; right; exact Hy).
+      destruct (q_kind s O y Hy') as [K1 K2]. split; [exact K1|]. intros N. rewrite Pw. auto.
+    + intros j Hj. rewrite Ac. left. exact (q_hist s O j Hj).
+    + exact (q_fin s O).
+    + intros j Aj Kj. rewrite Ac in Aj. destruct Aj as [Aj| ->].
+      * destruct (q_readers s O j Aj Kj) as [F|[R|(u & R)]]; [left; exact F|right; left; auto|]. right. right. exists u.
+        rewrite Pr, Pw. destruct R as [R|[R X]]; auto.
+      * right. destruct Hc as [(_ & Er & _)|(N & _ & Eg)]; [left; rewrite Er; left; reflexivity|]. right. exists (i_wt x). right.
+        rewrite Pw, Eg, upd_same. split; [exact (proj2 Kx N)|reflexivity].
+    + intros b0 Ab Kb. rewrite Ac in Ab. destruct Ab as [Ab| ->]; [left; exact (BD b0 Ab Kb)|destruct Kx; congruence].
+    + rewrite E4, E5. intros i j Hi [<-|Hj] Lij K; [|exact (q_order s O i j Hi Hj Lij K)].
+      pose proof (popped_acquired s i O (pop_prefix s x l' i O El Hi Lij)) as Ai.
+      destruct K as [K|K]; [exact (BD i Ai K)|destruct Kx; congruence].
+  - intros u. destruct (OT u) as [R1' R2 R3]. constructor.
+    + intros j Hj. rewrite Pr in Hj. rewrite Ac, E3, Es. destruct (R1' j Hj) as (A & K & S).
+      destruct (Z.eq_dec u t) as [->|Ne]; [congruence|]. rewrite Po by exact Ne. auto.
+    + intros j b0 Hj. rewrite Pw in Hj. rewrite E3, E4, E5. destruct (R2 j b0 Hj) as (X1 & X2 & X3 & X4).
+      split; [exact X1|]. split; [exact X2|]. destruct (Gs u) as [->|(-> & N & ->)].
+      * split; intros Y; [destruct (X3 Y)|destruct (X4 Y)]; split; auto; right; assumption.
+      * split; [|discriminate]. intros _. rewrite (proj2 Kx N) in Hj. injection Hj as <- <-. split; [reflexivity|left; reflexivity].
+    + intros k e v j Hq. rewrite Pw, E3, E5. destruct (Z.eq_dec u t) as [->|Ne]; [rewrite Pt in Hq; rewrite Hq in H1; discriminate|].
+      rewrite Po in Hq by exact Ne. destruct (R3 k e v j Hq) as (X & Y & Z). split; [exact X|]. split; [right; exact Y|exact Z].
+Qed.
